@@ -54,7 +54,7 @@ def run_once(res, fn, spec, label, max_steps=200_000_000):
     except Throw: r = outs = None; st = 'throw'
     except UB as e: r = outs = None; st = 'ub: ' + str(e)[:300]
     res.absorb(m)
-    if st == 'ret' and (m.pending or m.taken): res.inc(f'{label}: control flow depends on data'); st = 'fork'
+    if st == 'ret' and (m.pending or m.taken): st = 'fork'
     return m, r, outs, st
 
 def check_matrix(res, m, ys, insyms, ref, budget, label, cex, half_embed=False):
@@ -79,14 +79,16 @@ def job_inv(res, fn, n):
     ex = {'fn': fn, 'n': n, 'what': what}
     def cex(xv, why): return confirm(res, PID, HARNESS, fn, [('pf64', xv), ('i32', n), ('pf64', [0.0] * (2 * n))], 'i32', 'inv', ORACLES, f'{what}:{fn}:n={n}', why, extra=ex, timeout=120)
     m, r, outs, st = run_once(res, fn, spec, label)
-    if st != 'ret':
-        if st != 'fork': cex([((i * 7919 + 13) % 1000) / 1000.0 - 0.5 for i in range(2 * n)], f'{label}: {st}')
-        return
-    if r != n: cex([1.0] * (2 * n), f'{label}: returned length {r}'); return
     if what == 'rt':
         ref = [[Fraction(int(i == j)) for j in range(2 * n)] for i in range(2 * n)]; budget = Fraction(1, 2) * 64 * n * Fraction(EPS)
     else:
         ref = dft_ref_complex_in(n, n, sign=+1, scale=Fraction(1, n)); budget = Fraction(1, 2) * 64 * n * Fraction(EPS) / to_frac(mpmath.sqrt(n))
+    if st == 'fork':
+        region_check(res, HARNESS, fn, spec, insyms, 1, 2 * n, ref, 2 * budget * to_frac(mpmath.sqrt(2 * n)), label, cex); return
+    if st != 'ret':
+        cex([((i * 7919 + 13) % 1000) / 1000.0 - 0.5 for i in range(2 * n)], f'{label}: {st}')
+        return
+    if r != n: cex([1.0] * (2 * n), f'{label}: returned length {r}'); return
     check_matrix(res, m, outs[-1][:2 * n], insyms, ref, budget, label, cex, half_embed=True)
 
 def irfft_inputs(n, nb):
@@ -125,11 +127,13 @@ def job_irfft(res, fn, n, nb):
         return out
     def cex(xv, why): return confirm(res, PID, HARNESS, fn, [('pf64', conc(xv)), ('i32', nb), ('i32', n), ('pf64', [0.0] * n)], 'i32', 'inv', ORACLES, f'irfft:{fn}:n%4={n % 4}' + (':n=2' if n == 2 else ''), why, extra=ex, timeout=120)
     m, r, outs, st = run_once(res, fn, spec, label)
+    budget = Fraction(1, 2) * 64 * n * Fraction(EPS) / to_frac(mpmath.sqrt(n))
+    if st == 'fork':
+        region_check(res, HARNESS, fn, spec, insyms, 1, n, irfft_ref(n, insyms), 2 * budget * to_frac(mpmath.sqrt(n)), label, cex); return
     if st != 'ret':
-        if st != 'fork': cex([0.5 + 0.1 * i for i in range(len(insyms))], f'{label}: {st}')
+        cex([0.5 + 0.1 * i for i in range(len(insyms))], f'{label}: {st}')
         return
     if r != n: cex([1.0] * len(insyms), f'{label}: returned length {r}'); return
-    budget = Fraction(1, 2) * 64 * n * Fraction(EPS) / to_frac(mpmath.sqrt(n))
     check_matrix(res, m, outs[-1][:n], insyms, irfft_ref(n, insyms), budget, label, cex)
 
 def job_irfft_rt(res, n, half):
@@ -138,11 +142,13 @@ def job_irfft_rt(res, n, half):
     label = f'irfft(rfft(x)) n={n} {"n/2+1 bins" if half else "all bins"}'; ex = {'fn': fn, 'n': n, 'what': 'irt'}
     def cex(xv, why): return confirm(res, PID, HARNESS, fn, [('pf64', xv), ('i32', n), ('i32', half), ('pf64', [0.0] * n)], 'i32', 'inv', ORACLES, f'irfft_rt:n%4={n % 4}' + (':n=2' if n == 2 else ''), why, extra=ex, timeout=120)
     m, r, outs, st = run_once(res, fn, spec, label)
+    ref = [[Fraction(int(i == j)) for j in range(n)] for i in range(n)]
+    if st == 'fork':
+        region_check(res, HARNESS, fn, spec, insyms, 1, n, ref, 64 * n * Fraction(EPS) * to_frac(mpmath.sqrt(n)), label, cex); return
     if st != 'ret':
-        if st != 'fork': cex([0.5 + 0.1 * i for i in range(n)], f'{label}: {st}')
+        cex([0.5 + 0.1 * i for i in range(n)], f'{label}: {st}')
         return
     if r != n: cex([1.0] * n, f'{label}: returned length {r}'); return
-    ref = [[Fraction(int(i == j)) for j in range(n)] for i in range(n)]
     check_matrix(res, m, outs[-1][:n], insyms, ref, Fraction(1, 2) * 64 * n * Fraction(EPS), label, cex)
 
 def job_odd(res, fn, n):
@@ -152,7 +158,7 @@ def job_odd(res, fn, n):
     m, r, outs, st = run_once(res, fn, spec, f'{fn} odd n={n}')
     conc = [('pf64', [0.25 * (i + 1) for i in range(2 * nb)]), ('i32', nb), ('i32', n), ('pf64', [0.0] * max(n, 1))]
     if st == 'throw' and not m.ub_found: res.ob(True, 'PATH', f'{fn} odd n={n}: ends in a throw with all memory obligations met'); return
-    if st == 'fork': return
+    if st == 'fork': res.inc(f'{fn} odd n={n}: data-dependent control flow'); return
     why = f'{fn} with odd n={n}: ' + ('accepted (returned normally)' if st == 'ret' else f'undefined behaviour before the rejection: {st} {[u[1] for u in m.ub_found][:2]}')
     confirm(res, PID, HARNESS, fn, conc, 'i32', 'odd', ORACLES, f'irfft:odd:{"ret" if st == "ret" else "ub"}', why, extra={'n': n}, san=(st != 'ret'))
 
@@ -181,8 +187,9 @@ def job_stft(res, kind, nwin, sym, overlap, nfft, rng, method, nx):
         return confirm(res, PID, HARNESS, 'h_stft_rt', [('pf64', xv)] + spec[1:9] + [('pf64', [0.0] * nx)], 'i32', 'stft', ORACLES, key, why, extra=ex, timeout=60)
     m, r, outs, st = run_once(res, 'h_stft_rt', spec, cfg)
     xv0 = [math.sin(0.7 * i) + 0.3 for i in range(nx)]
+    if st == 'fork': res.inc(f'{cfg}: data-dependent control flow'); return
     if st != 'ret':
-        if st != 'fork': cex(xv0, f'{cfg}: {st}', 'stft:throw' if st == 'throw' else 'stft:ub')
+        cex(xv0, f'{cfg}: {st}', 'stft:throw' if st == 'throw' else 'stft:ub')
         return
     if r != xlen: cex(xv0, f'{cfg}: reconstructed length {r} instead of {xlen}', 'stft:length'); return
     ys = outs[-1][:xlen]
